@@ -5,7 +5,7 @@ CONSTANTS
   Procs = {1, 2, 3}
   Discipline = "free"
   Forced = TRUE
-  CallOps = {"Join", "Leave", "Exists", "Get", "MembersLen", "Others", "Len"}
+  CallOps = {"Join", "Leave", "Get", "Others"}
   MinMutators = 2
 INVARIANTS EmitSched
 CHECK_DEADLOCK FALSE
